@@ -235,6 +235,40 @@ pub fn run_c03(ctx: &Ctx, rep: &mut Report) {
             let kinds: Vec<String> = f.kinds.iter().map(|s| s.to_string()).collect();
             rep.trace_case(|| json!({"property":"C03","kind":"fault","schema":schema,"op":text,"rule":f.rule,"label":f.label,"kinds":kinds}));
             rep.eval();
+            // a sample of the mutants also goes through the real CLI (its `check` command is what the property names):
+            // as one file, or -- for faults of fragment definitions themselves -- with the fragments in a file of their
+            // own that no document imports
+            if (case * 4 + k) % 25 == 0 || ((f.rule == "R13" || f.label.starts_with("fragment-on-")) && (case + k) % 3 == 0) {
+                let frag_only = (f.rule == "R13" || f.label.starts_with("fragment-on-")) && rng.coin();
+                let mut files: Vec<(String, String)> = vec![("schema.graphql".into(), schema.clone()), ("graphql.config.yaml".into(), "schema: ./schema.graphql\ndocuments:\n  - ./ops/*.graphql\n".into())];
+                if frag_only {
+                    let frags = ExecDoc { defs: f.doc.defs.iter().filter(|d| matches!(d, ExecDef::Frag(_))).cloned().collect() };
+                    files.push(("ops/frags.graphql".into(), render_exec(&frags, None, Feat::plain())));
+                    files.push(("ops/main.graphql".into(), "query Other {\n  __typename\n}\n".into()));
+                } else {
+                    files.push(("ops/main.graphql".into(), text.clone()));
+                }
+                // the reference validator must confirm the fault on what the CLI will see
+                let confirmed = if frag_only {
+                    let frags = ExecDoc { defs: f.doc.defs.iter().filter(|d| matches!(d, ExecDef::Frag(_))).cloned().collect() };
+                    validate_operations(&ix, &frags).iter().any(|i| i.rule.starts_with(f.rule))
+                } else {
+                    true
+                };
+                let dir = crate::cli::scratch_dir(&ctx.out, "c03cli", case * 4 + k);
+                if confirmed && crate::cli::write_project(&dir, &files).is_ok() {
+                    let r = crate::cli::run_cli(&ctx.cli, &dir, &["check", "--output-format", "json"], std::time::Duration::from_secs(60));
+                    rep.count(if frag_only { "cli_mutants|fragment-only-file" } else { "cli_mutants|single-file" });
+                    if r.status == Some(0) && r.panicked().is_none() {
+                        // only meaningful when the library route diagnoses this mutant (otherwise it is the library finding)
+                        let lib = check_fault(&schema, &text, f.rule, &f.label, &kinds);
+                        if lib.as_ref().is_some_and(|v| v.is_empty()) {
+                            rep.violations(vec![Violation { sig: format!("C03|cli-accepts-what-the-library-diagnoses|{}|{}", f.rule, if frag_only { "fragment-only-file" } else { "single-file" }), detail: format!("`nitrogql check` exits 0 on a project whose document violates {} ({}) — files {:?}", f.rule, f.label, clip(&format!("{:?}", &files[2..]), 700)), replay: json!({"property":"C03","kind":"fault","schema":schema,"op":text,"rule":f.rule,"label":f.label,"kinds":kinds}) }]);
+                        }
+                    }
+                }
+                crate::cli::cleanup(&dir);
+            }
             match check_fault(&schema, &text, f.rule, &f.label, &kinds) {
                 None => rep.count("mutant_not_confirmed_single_fault"),
                 Some(vs) => {
